@@ -429,8 +429,10 @@ func probaNt(sequenceCodes [][]uint8, selectedSites []bool, weights []float64) (
 					for _, n := range id1 {
 						pi[ntByteToId[n]] += w / float64(len(id1))
 					}
+					// Only nucleotides are counted in the total,
+					// so that frequencies sum to 1 even with gaps
+					total += w
 				}
-				total += w
 			}
 		}
 	}
